@@ -7,6 +7,7 @@ pub mod c08;
 pub mod c10;
 pub mod c11;
 pub mod c12;
+pub mod c18;
 
 pub fn dispatch(engine: &str, sh: &mut Shard) -> bool {
     match engine {
@@ -17,6 +18,7 @@ pub fn dispatch(engine: &str, sh: &mut Shard) -> bool {
         "c10" => c10::run(sh),
         "c11" => c11::run(sh),
         "c12" => c12::run(sh),
+        "c18" => c18::run(sh),
         _ => return false,
     }
     true
